@@ -26,12 +26,103 @@ def inductive(ctx):
     shutil.rmtree(out, ignore_errors=True)
 
 
+def schedules(ctx):
+    """Every behaviour of GoAwayHandshake.tla (TLC's state graph, dumped with action labels and walked here), projected
+    on the steps that have a hook: G1 G2 G3, S1 (= Take.S1), S23 (= S2.S3).  Distinct projections = schedules."""
+    import os, re
+    dot = os.path.join(ctx.scratch, 'ga.dot')
+    r = ctx.tlc('GoAwayHandshake', 'GoAwayHandshake.cfg', workers=1, extra=['-dump', 'dot,actionlabels', dot])
+    if not r.ok:
+        raise __import__('vlib').Inconclusive('GoAwayHandshake dump failed: ' + r.error_text())
+    edges, init = {}, None
+    for ln in open(dot):
+        m = re.match(r'(-?\d+) -> (-?\d+) \[label="(\w+)"', ln)
+        if m:
+            edges.setdefault(m.group(1), []).append((m.group(3), m.group(2)))
+            continue
+        m = re.match(r'(-?\d+) \[label=', ln)
+        if m and init is None:
+            init = m.group(1)
+    out = set()
+    proj = {'G1': 'G1', 'G2': 'G2', 'G3': 'G3', 'S1': 'S1', 'S3': 'S23'}
+    stack = [(init, ())]
+    while stack:
+        node, path = stack.pop()
+        succ = edges.get(node, [])
+        if not succ:
+            out.add(path)
+            continue
+        for lab, nxt in succ:
+            # S2 has no hook; the replay runs it immediately before S3, so only behaviours with S2 directly followed by S3 are replayed as they are
+            stack.append((nxt, path + ((proj[lab],) if lab in proj else ())))
+    return sorted(out)
+
+
+def replay_schedules(ctx):
+    """Replay direction of the binding: each schedule is forced onto the real server by `h2v gahs` (blocking hooks, one
+    goroutine moves at a time); GoAwayHandshakeTrace.tla then requires every recorded event to be a step of the spec's own
+    actions with the recorded values, GoAwayTruth to hold throughout, and the GOAWAY read off the wire to carry the spec's
+    last-stream-id."""
+    import json, os, re, subprocess, vlib
+    sch = schedules(ctx)
+    thorough = ctx.tier == 'thorough'
+    if not thorough:
+        sch = [s for i, s in enumerate(sch) if i % 3 == ctx.seed % 3] + sch[:5]
+    scen = [{'id': i + 1, 'nstr': 3, 'steps': list(s)} for i, s in enumerate(sch)]
+    exe = ctx.harness()
+    shards = min(vlib.NCPU, max(1, len(scen) // 6))
+    files = []
+    for k in range(shards):
+        p = os.path.join(ctx.scratch, 'ga.sched.%d' % k)
+        vlib.write_ndjson(p, scen[k::shards])
+        files.append(p)
+    procs = [subprocess.Popen([exe, 'gahs', '--in', p, '--out', p + '.tr'], cwd=ctx.scratch, stdout=subprocess.PIPE, stderr=subprocess.STDOUT, text=True) for p in files]
+    merged = os.path.join(ctx.scratch, 'ga.traces')
+    with open(merged, 'w') as mf:
+        for p, pr in zip(files, procs):
+            out, _ = pr.communicate(timeout=900)
+            if pr.returncode != 0:
+                raise vlib.Inconclusive('h2v gahs failed: ' + out[-1500:])
+            mf.write(open(p + '.tr.0').read())
+
+    def rejected(tracefile):
+        r = ctx.validate('GoAwayHandshakeTrace', tracefile, workers=4)
+        acc = {int(x) for x in r.printed('ACCEPTED')}
+        bad = {}
+        for ln in open(tracefile):
+            t = json.loads(ln)
+            stuck = [e for e in t['evs'] if e['k'] in ('stuck', 'unexpectedpark', 'driverpanic')]
+            if t['t'] not in acc or stuck:
+                bad[t['t']] = (t, stuck)
+        return bad
+    bad = rejected(merged)
+    ctx.traces += len(scen)
+    ctx.evaluations += len(scen)
+    byid = {s['id']: s for s in scen}
+    for t, (tr, stuck) in sorted(bad.items())[:3]:
+        # confirm on its own
+        p = os.path.join(ctx.scratch, 'ga.confirm.%d' % t)
+        vlib.write_ndjson(p, [dict(byid[t], id=1)])
+        subprocess.run([exe, 'gahs', '--in', p, '--out', p + '.tr'], cwd=ctx.scratch, stdout=subprocess.PIPE, stderr=subprocess.STDOUT, timeout=120)
+        if rejected(p + '.tr.0'):
+            what = 'C10:goaway-handshake-schedule-rejected steps=%s events=%s' % (' '.join(byid[t]['steps']), ' '.join('%s(%s)' % (e.get('ev', e['k']), e.get('v', e.get('what', ''))) for e in tr['evs'])[:300])
+            ctx.report('C10:goaway-handshake-schedule-rejected', what, {'kind': 'gahs', 'clause': what, 'scenario': byid[t]})
+        else:
+            ctx.extra.setdefault('unconfirmed_clauses', []).append('gahs schedule %s' % ' '.join(byid[t]['steps']))
+            print('UNCONFIRMED property=%s clause=C10:goaway-handshake-schedule-rejected (not reproduced; not counted)' % ctx.prop, flush=True)
+    ctx.rule += (' HANDSHAKE REPLAY: %d of the %d hook-level schedules of GoAwayHandshake.tla (three new streams against one GOAWAY from the read loop) forced onto '
+                 'the real server with blocking hooks and validated step by step against the specification\'s own actions (GoAwayHandshakeTrace.tla).' % (len(scen), len(sch) if thorough else len(schedules(ctx))))
+
+
 def run(ctx):
     models(ctx)
+    replay_schedules(ctx)
     if ctx.tier == 'thorough':
         inductive(ctx)
     srvprop.run(ctx, 'C10')
 
 
 def replay(ctx, finding):
+    if finding.get('kind') == 'gahs':
+        return replay_schedules(ctx)
     srvprop.replay(ctx, 'C10', finding)
